@@ -126,7 +126,7 @@ pub fn run_dynamic(rep: &mut Report, tier: Tier) {
     let cfg = ExploreCfg { dev_bound: Some(0), faults: true, fv: FvPolicy::False, cap_alts: 16, ..ExploreCfg::default() };
     let mut tasks: Vec<(DynKind, Vec<Op>)> = vec![];
     for kind in all_kinds() {
-        let alpha = Alphabet { n_labels: 2, kind, with_unknown_label: false, nocert_queries: false, max_queries: 2, queries_only: false, updates_then_query: false, nodes: std::cell::Cell::new(0) };
+        let alpha = Alphabet { n_labels: 2, kind, with_unknown_label: false, nocert_queries: false, max_queries: 2, queries_only: false, updates_then_query: false, tail: 0, nodes: std::cell::Cell::new(0) };
         alpha.for_each_history(&[], 2, 0, &mut |h| tasks.push((kind, h.to_vec())));
     }
     let acc = tasks
@@ -134,7 +134,7 @@ pub fn run_dynamic(rep: &mut Report, tier: Tier) {
         .with_max_len(1)
         .map(|(kind, start)| {
             let mut acc = Acc::default();
-            let alpha = Alphabet { n_labels: 2, kind: *kind, with_unknown_label: false, nocert_queries: false, max_queries: 2, queries_only: false, updates_then_query: false, nodes: std::cell::Cell::new(0) };
+            let alpha = Alphabet { n_labels: 2, kind: *kind, with_unknown_label: false, nocert_queries: false, max_queries: 2, queries_only: false, updates_then_query: false, tail: 0, nodes: std::cell::Cell::new(0) };
             set_want_backtrace(true);
             alpha.for_each_history(start, depth - 2, 0, &mut |h| {
                 if !h.last().map(|o| o.is_query()).unwrap_or(false) {
